@@ -14,7 +14,7 @@ def keyfn(case, res, m):
 def run(chk, props=None, prop=None, bias=None):
     prop = prop or PROP
     chk.audit(props or PROPS)
-    n = 700 if chk.tier == 'quick' else 20000
+    n = 1000 if chk.tier == 'quick' else 20000
     b = bias or BIAS
     core.e1_flow(chk, 'scen_server', 'ledger', {prop},
                  lambda rng: scen_server.gen_case(rng, chk.tier, rng.choice(b)), n, keyfn=keyfn)
